@@ -174,6 +174,10 @@ def _remove_unwanted_expression_nodes(parent_node, pos, until_pos):
     is_suite_part = typ in ('suite', 'file_input')
     if typ in EXPRESSION_PARTS or is_suite_part:
         nodes = parent_node.children
+        # The range may lie completely outside of this node (it was only
+        # included because the range starts/ends on an operator next to it).
+        start_index = 0
+        end_index = len(nodes) - 1
         for i, n in enumerate(nodes):
             if n.end_pos > pos:
                 start_index = i
